@@ -212,6 +212,32 @@ class NotClosed(Exception):
     pass
 
 
+class FrozenDict(dict):
+    """a constant table as a hashable value (abstract states are kept in sets)"""
+
+    def __hash__(self):
+        return hash(tuple(sorted((repr(k), repr(v)) for k, v in self.items())))
+
+
+def module_constants(tree):
+    """{name: value} of the module-level names bound exactly once to a literal that ev can evaluate (numbers, strings,
+    tuples, frozensets/sets and dicts of such) and not stored to anywhere else in the module"""
+    counts = {}
+    for n in ast.walk(tree):
+        if isinstance(n, ast.Name) and isinstance(n.ctx, (ast.Store, ast.Del)):
+            counts[n.id] = counts.get(n.id, 0) + 1
+    out = {}
+    for st in tree.body:
+        if isinstance(st, ast.Assign) and len(st.targets) == 1 and isinstance(st.targets[0], ast.Name) and counts.get(st.targets[0].id) == 1:
+            try:
+                v = ev(st.value, out)
+                hash(v)
+            except Exception:
+                continue
+            out[st.targets[0].id] = v
+    return out
+
+
 _BIN = {ast.Add: O.add, ast.Sub: O.sub, ast.Mult: O.mul, ast.Mod: O.mod, ast.FloorDiv: O.floordiv,
         ast.BitAnd: O.and_, ast.BitOr: O.or_}
 _CMP = {ast.Eq: O.eq, ast.NotEq: O.ne, ast.Gt: O.gt, ast.GtE: O.ge, ast.Lt: O.lt, ast.LtE: O.le,
@@ -239,6 +265,10 @@ def ev(e, env, funcs=None):
         raise NotClosed(e.id)
     if isinstance(e, (ast.Tuple, ast.List)):
         return tuple(ev(x, env, funcs) for x in e.elts)
+    if isinstance(e, ast.Dict) and all(k is not None for k in e.keys):
+        return FrozenDict((ev(k, env, funcs), ev(v, env, funcs)) for k, v in zip(e.keys, e.values))
+    if isinstance(e, ast.Set):
+        return frozenset(ev(x, env, funcs) for x in e.elts)
     if isinstance(e, ast.BinOp):
         if type(e.op) not in _BIN:
             raise NotClosed(ast.dump(e.op))
@@ -340,6 +370,15 @@ def ev(e, env, funcs=None):
             if isinstance(seq, tuple):
                 return seq[0] if seq else ev(e.args[1], env, funcs)
             raise NotClosed('next')
+        if isinstance(e.func, ast.Name) and e.func.id in ('frozenset', 'set') and len(e.args) <= 1 and not e.keywords:
+            return frozenset(ev(e.args[0], env, funcs)) if e.args else frozenset()
+        if isinstance(e.func, ast.Attribute) and e.func.attr == 'get' and not e.keywords and 1 <= len(e.args) <= 2:
+            try:
+                recv_d = ev(e.func.value, env, funcs)
+            except NotClosed:
+                recv_d = None
+            if isinstance(recv_d, FrozenDict):
+                return recv_d.get(*[ev(a, env, funcs) for a in e.args])
         if isinstance(e.func, ast.Name) and e.func.id in ('enumerate', 'zip') and not e.keywords:
             args = [ev(a, env, funcs) for a in e.args]
             if all(isinstance(a, (tuple, str)) for a in args[:1]) and (e.func.id == 'zip' or len(args) <= 2):
